@@ -246,6 +246,8 @@ class Interp:
             raise Unsupported(f"truth: {e}")
 
     def tainted(self, obj):
+        if isinstance(obj, (IGen, IFunc, SymMethod)):
+            return True
         return S.deep_symbolic(obj)
 
     # ------------------------------------------------------------------ function bodies
@@ -402,7 +404,16 @@ class Interp:
                     return k
         return None
 
+    _MUTATORS = {"append", "extend", "insert", "pop", "clear", "remove", "reverse", "sort", "setdefault", "update", "popitem", "add", "discard", "__setitem__", "__delitem__", "__setattr__"}
+
     def native(self, fn, args, kwargs):
+        nm = getattr(fn, "__name__", "")
+        if nm in self._MUTATORS:
+            slf = getattr(fn, "__self__", None)
+            if slf is not None and not isinstance(slf, type):
+                self.note_write(slf, f"{type(slf).__name__}.{nm}")
+            elif args and isinstance(fn, (types.MethodDescriptorType, types.WrapperDescriptorType)):
+                self.note_write(args[0], f"{type(args[0]).__name__}.{nm}")
         try:
             return fn(*args, **kwargs)
         except INTERNAL:
@@ -530,7 +541,16 @@ class Interp:
         except AttributeError as e:
             self.raise_(e, node, frame)
 
+    def note_write(self, obj, what=""):
+        """frame condition: a write to an object that outlives the call (module global, class attribute)"""
+        from . import frame as F
+
+        o = F.owner_of(obj)
+        if o is not None:
+            self.ctx.frame_writes.append(f"{what} -> {o}")
+
     def setattr_(self, obj, name, value):
+        self.note_write(obj, f"setattr .{name}")
         try:
             setattr(obj, name, value)
         except Exception as e:
@@ -647,6 +667,7 @@ class Interp:
             raise Unsupported("store with symbolic key")
         if self.tainted(key):
             raise Unsupported("store with tainted key")
+        self.note_write(obj, f"store [{key!r}]")
         try:
             obj[key] = v
         except Exception as e:
@@ -807,7 +828,7 @@ class Interp:
             ch = it.chars()
             if ch is None:
                 raise Unsupported("iteration over a string of unknown shape")
-            return iter(ch)
+            return iter([c if isinstance(c, str) else SStr([c]) for c in ch])
         if isinstance(it, SBytes):
             return iter([x if isinstance(x, int) else SInt(x) for x in it.items])
         if isinstance(it, Sym):
